@@ -1280,4 +1280,75 @@ theorem region_wf_cases {cmd : Cmd} {pkg : Pkg} {fl : Flags} (h : region cmd pkg
         · cases h
       · cases h
 
+/-! ### output names have no path separator -/
+
+theorem toLower_slash (c : Char) (h : c.toLower = '/') : c = '/' := by
+  unfold Char.toLower at h
+  split at h
+  · rename_i hu
+    exfalso
+    have h2 := congrArg Char.val h
+    simp only at h2
+    have h3 : c.val.toNat + 32 = 47 := by
+      have := congrArg UInt32.toNat h2
+      have e : ('a'.val - 'A'.val) = 32 := by decide
+      rw [e] at this
+      have hle : c.val.toNat ≤ 90 := UInt32.le_iff_toNat_le.mp hu.2
+      rw [UInt32.toNat_add] at this
+      have h4 : (c.val.toNat + (32 : UInt32).toNat) % 2 ^ 32 = c.val.toNat + 32 := by
+        have : (32 : UInt32).toNat = 32 := by decide
+        rw [this]; omega
+      rw [h4] at this
+      have h5 : ('/' : Char).val.toNat = 47 := by decide
+      omega
+    have hge : 65 ≤ c.val.toNat := UInt32.le_iff_toNat_le.mp hu.1
+    omega
+  · exact h
+
+theorem noSep_iff {s : String} : noSep s = true ↔ '/' ∉ s.toList := by
+  simp [noSep]
+
+theorem noSep_stem {f : String} (h : noSep f = true) : noSep (stem f) = true := by
+  rw [noSep_iff] at h ⊢
+  unfold stem
+  split
+  · rw [String.toList_ofList]
+    exact fun h' => h (List.mem_of_mem_take h')
+  · exact h
+
+theorem noSep_comp {t : String} (h : noSep t = true) : noSep (comp t) = true := by
+  rw [noSep_iff] at h ⊢
+  unfold comp lower
+  intro hm
+  rw [String.toList_append, List.mem_append] at hm
+  rcases hm with hm | hm
+  · split at hm
+    · simp at hm
+    · have : "_".toList = ['_'] := by decide
+      rw [this] at hm
+      simp at hm
+  · rw [String.toList_ofList, List.mem_map] at hm
+    obtain ⟨c, hc, hcl⟩ := hm
+    exact h (toLower_slash c hcl ▸ hc)
+
+theorem declared_file_mem {pkg : Pkg} {f : String} {t : TSpec} (h : (f, t) ∈ declared pkg) : f ∈ pkg.map File.name := by
+  induction pkg with
+  | nil => simp [declared] at h
+  | cons g r ih =>
+    simp only [declared, List.mem_append, List.mem_map] at h
+    rcases h with ⟨_, _, he⟩ | h
+    · simp only [Prod.mk.injEq] at he
+      simp [he.1.symm]
+    · simp [ih h]
+
+theorem fileOf_mem {pkg : Pkg} {n f : String} (h : fileOf pkg n = some f) : f ∈ pkg.map File.name := by
+  unfold fileOf at h
+  cases hd : findDecl pkg n with
+  | none => simp [hd] at h
+  | some ft =>
+    obtain ⟨g, t⟩ := ft
+    simp only [hd, Option.map_some, Option.some.injEq] at h
+    subst h
+    exact declared_file_mem (findDecl_some hd).1
+
 end ShootVerif.Cli
